@@ -153,6 +153,21 @@ func runC13(c *fw.Ctx) {
 						})
 						continue
 					}
+					if len(rl) >= 2 && lastRunResp.Code != "OK" {
+						// a request rejected after an earlier rule had been applied in memory: the NEXT write to the row must
+						// build on the stored row, not on what the rejected request left behind
+						for _, fq := range []string{"a", "b"} {
+							ops2 := append(append([]bt.Op(nil), ops...), bt.Op{Kind: "RMW", Table: tblT, Key: []byte("r"), Rules: []bt.Rule{{Fam: "f", Qual: []byte(fq), Append: []byte("+next")}}})
+							m2, cl2, _, _ := runSeq(c, eng, setupT(), ops2, false)
+							c.Eval(1)
+							c.Trans(1)
+							if m2 != "" {
+								sc := seqCase{Engine: eng, Setup: setupT(), Ops: ops2}
+								c.Violate(fmt.Sprintf("C13:%s:%s:after-rejected:prior%d", eng, cl2, pi), m2+"\n  sequence: "+bt.OpsString(ops2), sc, nil)
+								break
+							}
+						}
+					}
 					if item%4999 == 0 {
 						c.Sample(map[string]interface{}{"engine": eng, "sequence": bt.OpsString(ops)})
 					}
